@@ -545,6 +545,11 @@ def gen_class(seed):
     if cls == "NonexpansiveOperator" and rnd.random() < .5:
         v = p.newp(); p.emit("pt.leaf %s" % v); p.emit("fn.setv %s %s" % (f, v))
     p.sample_ops(f, rnd.randint(0, 5))
+    if cls not in ("LinearOperator", "SymmetricLinearOperator", "SkewSymmetricLinearOperator") and rnd.random() < .25:
+        # the function is also sampled through a multiple of itself (F = c * f): its samples are then scaled copies of F's
+        # (a gradient G and G / c have the same leaves, different coefficients)
+        F_ = p.newf(); p.emit("fn.lin %s %s %s 0 %s" % (F_, rnd.choice(["2", "1/2", "-1", "4"]), f, f)); p.F.pop()
+        p.sample_ops(F_, rnd.randint(1, 3))
     if cls == "LinearOperator":
         p.emit("fn.adjoint ft %s" % f); p.sample_ops("ft", rnd.randint(0, 3))
     p.emit("class.set %s" % f); p.emit("dump.class %s" % f); p.emit("dump.tables %s" % f); p.emit("dump.fn %s" % f)
@@ -578,6 +583,9 @@ def gen_collect(seed):
     if nb:
         for _ in range(rnd.randint(1, 3)):
             x = rnd.choice(p.P); n = p.newp(); p.emit("part.block %s b1 %s 0" % (n, x))
+        if rnd.random() < .4:
+            x = rnd.choice(p.P); y = p.newp(); p.emit("pt.smul %s %s %s" % (y, rnd.choice(["2", "-1", "1/2"]), x))      # same leaves, other coefficients
+            n = p.newp(); p.emit("part.block %s b1 %s 0" % (n, x)); n = p.newp(); p.emit("part.block %s b1 %s 0" % (n, y)); p.emit("dump.part b1")
         if nb2:
             for _ in range(rnd.randint(1, 2)):
                 x = rnd.choice(p.P); n = p.newp(); p.emit("part.block %s b2 %s 0" % (n, x))
@@ -596,6 +604,14 @@ def gen_collect(seed):
     for _ in range(rnd.randint(0, 2)):
         e1, e2 = expr(), expr(); c = p.newc(); p.emit(rnd.choice(["cons.le", "cons.ge", "cons.eq"]) + " %s %s %s" % (c, e1, e2))
         p.emit("fn.addcons %s %s" % (rnd.choice(p.F), c))
+    if rnd.random() < .3:
+        # the same combination of functions written inline twice (two objects, one decomposition); a step with a side
+        # constraint and a user constraint land on the second object: both must reach the solver
+        a_, b_ = rnd.choice(leaves), rnd.choice(leaves); wa_, wb_ = rnd.choice(["1", "2", "1/2"]), rnd.choice(["1", "2"])
+        n1 = p.newf(); p.emit("fn.lin %s %s %s %s %s" % (n1, wa_, a_, wb_, b_)); n2 = p.newf(); p.emit("fn.lin %s %s %s %s %s" % (n2, wa_, a_, wb_, b_))
+        x_, d_ = p.newp(), p.newp(); fx_ = p.newe()
+        p.emit("step.inexgrad %s %s %s %s %d %s %s %s" % (rnd.choice(p.P[:2]), n2, rnd.choice(G), rnd.choice(G), rnd.random() < .5, x_, d_, fx_))
+        e = expr(); c = p.newc(); p.emit("cons.lec %s %s 1" % (c, e)); p.emit("fn.addcons %s %s" % (n2, c))
     if nb and rnd.random() < .5:
         e = expr(); c = p.newc(); p.emit("cons.lec %s %s 1" % (c, e)); p.emit("part.addcons b1 %s" % c)        # a user constraint attached to the partition
     if rnd.random() < .5:
